@@ -11,7 +11,10 @@ RULE = ("random multifurcating trees (3..14 tips, rooted/unrooted, parent slot a
         "small integers (ties), a few with missing lengths or duplicated node names for the refusals), midpoint once per tree, "
         "outgroups = clade / complement of a clade / single tip / all but one tip / several-but-not-all children of a "
         "multifurcation / random subset / with absent names, inner-node names and repeated names / only absent names / "
-        "all tips / empty list, x remove x strict; thorough tier adds every tip subset of trees with <= 6 tips; "
+        "all tips / empty list, x remove x strict; plus, with remove, an outgroup containing the node the tree hangs from "
+        "(complement of a clade on unrooted trees, first inner root child on rooted trees); the observation includes the "
+        "tip-name index, ExistsTip/TipIndex of every tip and the bitset width of every branch after reroot/unroot/outgroup/"
+        "midpoint; thorough tier adds every tip subset of trees with <= 6 tips; "
         "a case is non-trivial when the operation changed the structure; distinct = distinct case text")
 TRUSTED = ["tree built through NewNode/NewEdge + verif hooks (exact neighbour order); dump through Neigh()/Edges()/Left()/Right()"]
 ASSUMPTIONS = ["math/rand: Intn/Int31n transcribed in Model/Rand.v; the recorded Int63 stream is what the code under test consumes"]
@@ -127,6 +130,23 @@ def root_cases(rng, t, style, tier, exhaustive=False):
         for remove, strict in (flags or [(rng.random() < 0.3, rng.random() < 0.4)]):
             out.append(({"op": Sym("outgroup"), "tree": T(t), "names": list(names), "remove": remove, "strict": strict},
                         dict(meta, op="outgroup", og=kind, remove=remove, strict=strict)))
+    if not exhaustive:
+        # removal of an outgroup that contains the node the tree hangs from (the old root is among the deleted nodes):
+        # complement of a clade on an unrooted tree, the first inner root child (and what contains it) on a rooted tree
+        forced = []
+        cl = inner_clades(t)
+        if cl:
+            c = rng.choice(cl)
+            forced.append(("coclade-rm", [x for x in L if x not in c]))
+        if rooted:
+            inner = [c for _, c in kids(t) if kids(c)]
+            if inner:
+                forced.append(("rootchild-rm", leaves(inner[0])))
+        for kind, names in forced:
+            if 0 < len(names) < len(L):
+                strict = rng.random() < 0.5
+                out.append(({"op": Sym("outgroup"), "tree": T(t), "names": list(names), "remove": True, "strict": strict},
+                            dict(meta, op="outgroup", og=kind, remove=True, strict=strict)))
     return out
 
 STYLES = ["random", "random", "random", "halfzero", "halfzero", "tipszero", "allzero", "equal", "smallint", "smallint", "missing", "dupnames", "single"]
